@@ -447,7 +447,7 @@ func main() {
 		budget = 40 * time.Minute
 	}
 	r.SetBudget(budget)
-	caches := []uint64{0, 16 * 1024, 64 << 20}
+	caches := []uint64{0, 1000, 64 << 20} // 1000 bytes: fills up and flushes by itself every few blocks
 	nested := true
 	complete := true
 	stats := map[string]interface{}{}
